@@ -638,9 +638,10 @@ def design(draw, flavor, reset=None, max_stmts=5, depth=2):
     inputs = [{"name": f"ib{i}", "kind": "bit"} for i in range(nib)] + [{"name": f"iv{i}", "kind": "u"} for i in range(niv)]
 
     def dflt(kind, allow_none):
-        if kind == "bit":
-            return st.one_of(st.none(), st.integers(0, 1)) if allow_none else st.integers(0, 1)
-        return st.one_of(st.none(), st.integers(0, (1 << W) - 1)) if allow_none else st.integers(0, (1 << W) - 1)
+        v = st.integers(0, 1) if kind == "bit" else st.integers(0, (1 << W) - 1)
+        # objects without default are undefined until first written: keep them, but rare, because a read of an
+        # undefined object in a condition ends the comparable part of a run
+        return st.one_of(st.none(), v, v, v, v, v, v) if allow_none else v
 
     outputs = []
     for i in range(draw(st.integers(1, 2))):
@@ -661,6 +662,8 @@ def design(draw, flavor, reset=None, max_stmts=5, depth=2):
     if flavor in ("seq", "coro") and draw(st.integers(0, 2)) == 0:
         kind = draw(st.sampled_from(["u", "bit"]))
         outputs.append({"name": "op0", "kind": kind, "default": draw(dflt(kind, False)), "push": True})
+        if draw(st.integers(0, 2)) == 0:
+            outputs[-1]["noreset"] = True  # excluded from reset, but still returns to its default after a push
     spec = {"W": W, "inputs": inputs, "outputs": outputs, "sigs": sigs, "vars": vars_,
             "ctx": {"type": flavor, "reset": reset}, "helpers": [], "subs": []}
     if flavor != "conc" and draw(st.integers(0, 2)) == 0:
